@@ -5,6 +5,7 @@ package swap
 import (
 	"math"
 
+	vpremium "github.com/elementsproject/peerswap/premium"
 	"github.com/elementsproject/peerswap/zzverif"
 )
 
@@ -21,6 +22,7 @@ const vMaxAmountSat = (uint64(1) << 63) / 1000
 
 // H_C12_checkPremium: the initiator continues past the agreement only if premium <= its limit.
 func H_C12_checkPremium() {
+	vExactPremium = true
 	env := newEnv(true, true)
 	swapIn := zzverif.Bool("swap_in")
 	var s *SwapData
@@ -51,6 +53,7 @@ func vLimit(s *SwapData) int64 {
 // H_C12_payFeeInvoice: the fee invoice is paid only if fee <= 3 x own estimate and the channel can
 // carry amount + fee, both as mathematical integers.  Bounds: amount <= 2^63 msat, estimate < 2^51 sat.
 func H_C12_payFeeInvoice() {
+	vExactPremium = true
 	env := newEnv(true, true)
 	s := vTakerSwap(false, zzverif.Bool("liquid"), 7)
 	zzverif.Assume(s.SwapOutRequest.Amount <= vMaxAmountSat)
@@ -78,6 +81,7 @@ func H_C12_payFeeInvoice() {
 // Pre-state: premium <= limit (established by H_C12_checkPremium for the initiator; the responder
 // computed the premium itself).  Bounds: amount <= 2^63 msat.
 func H_C12_claimInvoiceAmount() {
+	vExactPremium = true
 	env := newEnv(true, true)
 	swapIn := zzverif.Bool("swap_in")
 	liquid := zzverif.Bool("liquid")
@@ -118,6 +122,7 @@ func H_C12_claimInvoiceAmount() {
 // H_C12_openingAmount: the maker hands the wallet exactly amount + premium (swap-in) / amount
 // (swap-out) and asks the Lightning node for an invoice of exactly the claim amount.
 func H_C12_openingAmount() {
+	vExactPremium = true
 	env := newEnv(true, true)
 	swapIn := zzverif.Bool("swap_in")
 	s := vMakerSwap(swapIn, zzverif.Bool("liquid"), 7, false)
@@ -157,6 +162,7 @@ func H_C12_openingAmount() {
 // configured limit rate and the request carries the amount unchanged (SwapOut / SwapIn entry points are
 // covered by the C10/C11 service harnesses; this is the arithmetic kernel).
 func H_C12_responderPremium() {
+	vExactPremium = true
 	env := newEnv(true, true)
 	swapIn := zzverif.Bool("swap_in")
 	liquid := zzverif.Bool("liquid")
@@ -189,7 +195,8 @@ func H_C12_responderPremium() {
 		default:
 			ppm = 2000
 		}
-		want := int64(amount) * ppm / 1000000
+		// the premium of that rate is premium.PPM.Compute (its arithmetic: C27, H_C27_ppmCompute*)
+		want := vpremium.NewPPM(ppm).Compute(amount)
 		zzverif.Assert(s.GetPremium() == want, "C12.responder_charges_configured_rate")
 	}
 }
